@@ -24,7 +24,11 @@ RULE = ('cases: (i) bounded-exhaustive - all 3^9 3x3 images over three level tri
         'pixels under a non-zero background) x 4 orientations x 2 paddings x 4 bkg/rms/sign variants; (iii) seeded '
         'random images quantised on a 0.5 grid (ties with the thresholds), NaN blocks, zero-valued pixels under '
         'bkg != 0, varying bkg and rms > 0, 0 < flood <= seed, each evaluated at seed and at seed\' > seed '
-        '(monotonicity); (iv) find_sources_in_image on small rendered fields with _fit_island wrapped.  '
+        '(monotonicity); (iv) find_sources_in_image on small rendered fields with _fit_island wrapped; (v) memory '
+        'layouts: random and pattern images handed over as C, Fortran, .T view, windows of larger C/F arrays, stepped '
+        'and negative strides, planes of cubes (row axis fastest; plane index fastest), non-native byte order, '
+        'read-only, all three maps alike and mixed between im/bkg/rms - judged against the oracle and against the '
+        'C-contiguous native copy.  '
         'An evaluation = one find_islands call (or one _fit_island call) judged against the oracle; non-trivial = '
         'the image has >= 1 finite pixel with snr >= flood; distinct = distinct (image bytes, bkg, rms, seed, flood) '
         'within a case, cases with equal hash counted once')
@@ -40,7 +44,12 @@ MIN_COUNTERS = {'find_islands_judged': 1000, 'nontrivial_images': 500, 'oracle_i
                 'unseeded_group_with_seed_pixel_in_its_box': 20, 'island_box_contains_foreign_group': 20,
                 'island_pixels_with_value_zero': 20, 'pixels_snr_equal_flood': 20, 'pixels_snr_equal_seed': 20,
                 'images_where_4_connectivity_differs': 20, 'monotonicity_pairs': 100, 'fit_island_calls_judged': 20,
-                'components_traced_to_island': 20, 'finder_unseeded_group_with_seed_pixel_in_its_box': 3}
+                'components_traced_to_island': 20, 'finder_unseeded_group_with_seed_pixel_in_its_box': 3,
+                'layout_base_images_2d': 200, 'layout_evals_2d_not_c_contiguous': 2000, 'layout_F': 100,
+                'layout_T_view': 100, 'layout_window': 100, 'layout_window_F': 100, 'layout_step': 100,
+                'layout_neg_strides': 100, 'layout_neg_rows': 100, 'layout_cube_row_fastest': 100,
+                'layout_cube_plane_last_axis': 100, 'layout_byteswapped': 100, 'layout_byteswapped_F': 100,
+                'layout_readonly': 100, 'layout_readonly_F': 100, 'layout_mixed': 300}
 
 BATCHES_PER_JOB = 1     # importing AegeanTools + oracle self-checks cost ~8 s per worker process
 
@@ -212,6 +221,9 @@ def cases(seed, tier):
     per = 150 if tier == 'quick' else 250
     for k in range(nrand):
         out.append({'kind': 'random', 'n': per, 'seed': [seed, 'random', k]})
+    nl = 32 if tier == 'quick' else 320
+    for k in range(nl):
+        out.append({'kind': 'layouts', 'n': 24 if tier == 'quick' else 40, 'seed': [seed, 'layouts', k]})
     nf = 60 if tier == 'quick' else 600
     for k in range(nf):
         out.append({'kind': 'finder', 'nested': k % 3 == 0, 'seed': [seed, 'finder', k]})
@@ -528,10 +540,153 @@ def run(case):
                                                            'flood': flood, 'scale': k, 'islands': _sets(g1), 'islands_scaled': _sets(g3)})
         o.sample = {'last_shape': list(im.shape), 'seed': seed, 'flood': flood, 'seed2': seed2,
                     'islands_at_seed': None if g1 is None else len(g1), 'islands_at_seed2': None if g2 is None else len(g2)}
+    elif kind == 'layouts':
+        _layout_case(o, case, ev)
     elif kind == 'finder':
         _finder_case(o, case, distinct)
     o.n_nontrivial = len(distinct)
     return o.result()
+
+
+# ----------------------------------------------------------------------------- memory layouts of the input maps
+def _lay_C(a, rng):
+    return np.ascontiguousarray(a)
+
+
+def _lay_F(a, rng):
+    return np.asfortranarray(a)
+
+
+def _lay_T_view(a, rng):
+    """a .T view of a C-contiguous array that holds the transpose"""
+    return np.ascontiguousarray(a.T).T
+
+
+def _lay_window(a, rng):
+    """a window of a larger C-ordered array (row-major, not contiguous)"""
+    r, c = a.shape
+    big = np.full((r + 3, c + 5), 99.0, dtype=a.dtype)
+    big[1:1 + r, 2:2 + c] = a
+    return big[1:1 + r, 2:2 + c]
+
+
+def _lay_window_F(a, rng):
+    """a window of a larger Fortran-ordered array"""
+    r, c = a.shape
+    big = np.asfortranarray(np.full((r + 4, c + 2), 99.0, dtype=a.dtype))
+    big[3:3 + r, 1:1 + c] = a
+    return big[3:3 + r, 1:1 + c]
+
+
+def _lay_step(a, rng):
+    """every second row and every third column of a larger array"""
+    r, c = a.shape
+    big = np.full((2 * r, 3 * c), 99.0, dtype=a.dtype)
+    big[::2, ::3] = a
+    return big[::2, ::3]
+
+
+def _lay_neg(a, rng):
+    """negative strides on both axes"""
+    return np.ascontiguousarray(a[::-1, ::-1])[::-1, ::-1]
+
+
+def _lay_neg_rows(a, rng):
+    return np.ascontiguousarray(a[::-1, :])[::-1, :]
+
+
+def _lay_cube_rowfast(a, rng):
+    """a plane of a cube in which the row axis of the plane is the fastest axis in memory"""
+    r, c = a.shape
+    cube = np.full((3, c, r), 99.0, dtype=a.dtype)
+    k = int(rng.integers(0, 3))
+    cube[k] = a.T
+    return cube.transpose(0, 2, 1)[k]
+
+
+def _lay_cube_last(a, rng):
+    """a plane image[:, :, k] of a cube with the plane index fastest (both axes strided)"""
+    r, c = a.shape
+    cube = np.full((r, c, 3), 99.0, dtype=a.dtype)
+    k = int(rng.integers(0, 3))
+    cube[:, :, k] = a
+    return cube[:, :, k]
+
+
+def _lay_swapped(a, rng):
+    """non-native byte order, as astropy hands over FITS data ('>f4' / '>f8')"""
+    return a.astype(a.dtype.newbyteorder('S'))
+
+
+def _lay_swapped_F(a, rng):
+    return np.asfortranarray(a.astype(a.dtype.newbyteorder('S')))
+
+
+def _lay_readonly(a, rng):
+    b = np.array(a, copy=True)
+    b.setflags(write=False)
+    return b
+
+
+def _lay_readonly_F(a, rng):
+    b = np.asfortranarray(np.array(a, copy=True))
+    b.setflags(write=False)
+    return b
+
+
+LAYOUTS = {'C': _lay_C, 'F': _lay_F, 'T_view': _lay_T_view, 'window': _lay_window, 'window_F': _lay_window_F,
+           'step': _lay_step, 'neg_strides': _lay_neg, 'neg_rows': _lay_neg_rows, 'cube_row_fastest': _lay_cube_rowfast,
+           'cube_plane_last_axis': _lay_cube_last, 'byteswapped': _lay_swapped, 'byteswapped_F': _lay_swapped_F,
+           'readonly': _lay_readonly, 'readonly_F': _lay_readonly_F}
+LAYOUT_NAMES = sorted(LAYOUTS)
+
+
+def _layout_case(o, case, ev):
+    """the same pixel values handed over in different memory layouts (all three maps alike, and mixed): the islands
+    must be those of the oracle, hence those of the C-contiguous native copy"""
+    rng = rng_for(*case['seed'])
+    lib = pattern_library()
+    names = sorted(lib)
+    for n in range(case['n']):
+        if n % 4 == 3:
+            name = names[int(rng.integers(0, len(names)))]
+            level = _embed(lib[name], int(rng.integers(0, 4)), int(rng.choice([0, 2])))
+            im, bkg, rms = _realise(level, int(rng.integers(0, 4)))
+            seed, flood = 5.0, 4.0
+            label = 'pattern ' + name
+        else:
+            im, bkg, rms, seed, flood, _s2 = _random_image(rng)
+            label = 'random'
+        im, bkg, rms = [np.ascontiguousarray(x) for x in (im, bkg, rms)]
+        base = ev(im, bkg, rms, seed, flood, label + ', layout C')
+        o.count('layout_base_images')
+        if min(im.shape) > 1:
+            o.count('layout_base_images_2d')
+        # every layout applied to all three maps, then a few mixed combinations
+        combos = [(k, k, k) for k in LAYOUT_NAMES if k != 'C']
+        for _ in range(4):
+            combos.append(tuple(LAYOUT_NAMES[int(j)] for j in rng.integers(0, len(LAYOUT_NAMES), 3)))
+        for (ki, kb, kr) in combos:
+            a = LAYOUTS[ki](im, rng)
+            b = LAYOUTS[kb](bkg, rng)
+            r = LAYOUTS[kr](rms, rng)
+            for x, y in ((a, im), (b, bkg), (r, rms)):
+                if x.shape != y.shape or not np.array_equal(x, y, equal_nan=True):
+                    raise RuntimeError('harness: layout %s/%s/%s changed the pixel values' % (ki, kb, kr))
+            tag = ki if ki == kb == kr else 'mixed'
+            g = ev(a, b, r, seed, flood, '%s, layout im=%s bkg=%s rms=%s' % (label, ki, kb, kr))
+            o.count('layout_' + tag)
+            if min(im.shape) > 1 and not (a.flags['C_CONTIGUOUS'] and b.flags['C_CONTIGUOUS'] and r.flags['C_CONTIGUOUS']):
+                o.count('layout_evals_2d_not_c_contiguous')
+            o.see('layout_flags', '%s: C=%s F=%s strides_sign=%s byteorder=%s writeable=%s' % (
+                ki, a.flags['C_CONTIGUOUS'], a.flags['F_CONTIGUOUS'], [int(np.sign(v)) for v in a.strides],
+                a.dtype.byteorder, a.flags['WRITEABLE']))
+            if base is not None and g is not None and g != base:
+                o.violate('islands_depend_on_memory_layout',
+                          {'label': label, 'im': _lst(im), 'bkg': _lst(bkg), 'rms': _lst(rms), 'seed': seed, 'flood': flood,
+                           'layout': {'im': ki, 'bkg': kb, 'rms': kr}, 'islands_c_contiguous': _sets(base),
+                           'islands_layout': _sets(g)})
+    o.sample = {'layouts': LAYOUT_NAMES, 'last_shape': list(im.shape), 'last_label': label}
 
 
 def _mono(o, g_low, g_high, im, bkg, rms, seed_low, seed_high, flood):
